@@ -11,7 +11,7 @@ fn bwrite(cx: &mut Ctx, seed: usize, len: usize, cap: usize) -> (bool, usize) {
     let res = if len <= 48 { cx.op(&format!("bwrite {} {}", hx(&pat(seed, len)), cap)) } else { cx.op(&format!("bwriten {} {} {}", len, seed, cap)) };
     let p: Vec<&str> = res.split(' ').collect();
     if p[0] == "bytes" {
-        (true, p[1].parse().unwrap())
+        (true, p[1].parse().unwrap_or(0))
     } else {
         (false, 0)
     }
@@ -207,7 +207,7 @@ pub fn c18(cx: &mut Ctx) {
         if !to_send_body(cx, "POST", "HTTP/1.1", None, false) { continue; }
         for &n in batch {
             let res = cx.op(&format!("maxin {}", n));
-            let m: usize = res.split(' ').nth(1).unwrap().parse().unwrap();
+            let m: usize = res.split(' ').nth(1).unwrap_or("0").parse().unwrap_or(0);
             if m > 0 {
                 bwrite(cx, n, m, n);
             }
@@ -235,7 +235,7 @@ pub fn c18(cx: &mut Ctx) {
             cx.op("chunked?");
             for n in [0usize, 1, 5, 6, 8, 9, 10, 21, 22, 100, 263, 4104, 10248, 10249, 10300 + vi] {
                 let res = cx.op(&format!("maxin {}", n));
-                let m: usize = res.split(' ').nth(1).unwrap().parse().unwrap();
+                let m: usize = res.split(' ').nth(1).unwrap_or("0").parse().unwrap_or(0);
                 if m > 0 { bwrite(cx, n, m, n); }
             }
         }
@@ -246,7 +246,7 @@ pub fn c18(cx: &mut Ctx) {
         for &n in batch {
             if n > 70000 { continue; }
             let res = cx.op(&format!("maxin {}", n));
-            let m: usize = res.split(' ').nth(1).unwrap().parse().unwrap();
+            let m: usize = res.split(' ').nth(1).unwrap_or("0").parse().unwrap_or(0);
             bwrite(cx, n, m, n);
         }
     }
@@ -272,7 +272,7 @@ pub fn c19(cx: &mut Ctx) {
         cx.case("bound");
         if !to_send_body(cx, "POST", "HTTP/1.1", None, false) { continue; }
         let res = cx.op(&format!("maxin {}", cap));
-        let m: usize = res.split(' ').nth(1).unwrap().parse().unwrap();
+        let m: usize = res.split(' ').nth(1).unwrap_or("0").parse().unwrap_or(0);
         for input in [1usize, m.saturating_sub(1).max(1), m.max(1), m + 1, m + 2, cap, cap + 1, 2 * cap, 10240, 10241, 30000, 80000] {
             bwrite(cx, input, input, cap);
         }
